@@ -37,7 +37,7 @@ def tolerated(case, i, impl, model):
 
 
 def gen_cases(rng, tier):
-    n_user = 40 if tier == "thorough" else 5
+    n_user = 40 if tier == "thorough" else 10
     n_pre = 8 if tier == "thorough" else 2
     per = 90 if tier == "thorough" else 60
     cases = []
